@@ -75,7 +75,8 @@ def detect(seed, checks, tier):
             res[c] = {"exit": rc, "violations": len(viol), "first_keys": [k[:300] for k in keys[:3]], "seconds": round(time.time() - t, 1), "tier": tier,
                       "tail": out.strip().splitlines()[-1][:200] if out.strip() else ""}
     finally:
-        sh("git -C /repo checkout -- .")
+        # also remove files the patch created (ignored build output stays)
+        sh("git -C /repo checkout -- . && git -C /repo clean -fdq")
     return res
 
 def main():
